@@ -15,6 +15,7 @@ def inflightRev (c : Client) : Option Nat :=
   | .createReread r => some r
   | .createRetry r => some r
   | .createOver r _ => some r
+  | .createRecheck r => some r
   | .updateCommit r => some r
   | .deleteCommit r _ _ => some r
   | _ => none
